@@ -1,4 +1,5 @@
 import ast
+import copy
 from contextlib import suppress
 from dataclasses import dataclass, field
 from typing import ClassVar, NoReturn
@@ -86,7 +87,11 @@ class OverloadedFunctionDef(CompiledCallableDef, CallableDef):
             assert isinstance(defn, CallableDef)
             available_sigs.append(defn.ty)
             with suppress(GuppyError):
-                return defn.check_call(args, ty, node, ctx)
+                # Checking a call may annotate or replace the argument nodes in place, so
+                # every variant is tried on its own copy
+                return defn.check_call(
+                    copy.deepcopy(args), ty, copy.deepcopy(node), ctx
+                )
         return self._call_error(args, node, ctx, available_sigs, ty)
 
     def synthesize_call(
@@ -98,7 +103,9 @@ class OverloadedFunctionDef(CompiledCallableDef, CallableDef):
             assert isinstance(defn, CallableDef)
             available_sigs.append(defn.ty)
             with suppress(GuppyError):
-                return defn.synthesize_call(args, node, ctx)
+                return defn.synthesize_call(
+                    copy.deepcopy(args), copy.deepcopy(node), ctx
+                )
         return self._call_error(args, node, ctx, available_sigs)
 
     def _call_error(
